@@ -192,9 +192,10 @@ def main(tier, seed, extra_programs=None):
                                           seed=seed + 4, module="MC_Gen", tag="c04t" + gname)
         if gstats.get("violation"):
             rep.violation("generated programs (%s): TLC reports\n%s" % (gname, gstats["violation"][:1500]), {"tlc": gstats["violation"]})
-        if tier == "quick" and len(gruns) > 3000:
+        cap = 3000 if tier == "quick" else 40000
+        if len(gruns) > cap:
             random.Random(seed).shuffle(gruns)
-            gruns = gruns[:3000]
+            gruns = gruns[:cap]
         tw += [(["generated", gname, r["id"]], r["prog"]) for r in gruns]
         states += max(gstats["distinct"], len(gruns))
         trans += gstats["generated"]
